@@ -134,6 +134,29 @@ struct Mon {
     bool range_ok = g.m >= 1 && g.m <= 12 && g.d >= 1 && g.d <= orc::month_len(g.y, g.m) && g.H >= 0 && g.H <= 23 &&
                     g.M >= 0 && g.M <= 59 && g.S >= 0 && g.S <= 59;
     if (!range_ok) ctx.viol("C04", std::string("accessor-range:") + Al<T>::name(), str6(a) + " -> " + orc::str(g));
+    // the same fields through the shorter constructor forms, wherever the omitted fields have their default values
+    const int64_t y = static_cast<int64_t>(a.y), m = static_cast<int64_t>(a.m), d = static_cast<int64_t>(a.d), H = static_cast<int64_t>(a.H),
+                  M = static_cast<int64_t>(a.M);
+    auto arity = [&](int k, const T& tk) {
+      ctx.stat("C04.evaluations");
+      ctx.stat("C04.default_argument_forms");
+      if (get(tk) != e)
+        ctx.viol("C04", std::string("normalize-default-args:") + Al<T>::name() + ":" + std::to_string(k) + "-fields",
+                 std::string("civil_") + Al<T>::name() + " from the first " + std::to_string(k) + " of " + str6(a) + " expected " + orc::str(e) + " got " + orc::str(get(tk)));
+    };
+    if (a.S == 0) {
+      arity(5, T(y, m, d, H, M));
+      if (a.M == 0) {
+        arity(4, T(y, m, d, H));
+        if (a.H == 0) {
+          arity(3, T(y, m, d));
+          if (a.d == 1) {
+            arity(2, T(y, m));
+            if (a.m == 1) arity(1, T(y));
+          }
+        }
+      }
+    }
   }
   void c04_all(const Args6& a, const char* src) {
     Civ n;
@@ -176,8 +199,8 @@ struct Mon {
       case 0: return rng.range(-100, 100);
       case 1: return rng.range(-100000, 100000);
       case 2: return (int64_t)rng.next();
-      case 3: return orc::I64MAX - rng.range(0, 1000);
-      case 4: return orc::I64MIN + rng.range(0, 1000);
+      case 3: return orc::I64MAX - (rng.chance(0.15) ? 0 : rng.range(0, 1000));
+      case 4: return orc::I64MIN + (rng.chance(0.15) ? 0 : rng.range(0, 1000));
       case 5: {
         int bits = (int)rng.range(1, 63);
         int64_t v = (int64_t)(rng.next() >> (64 - bits));
@@ -215,6 +238,16 @@ struct Mon {
         i128 target = rng.chance(0.5) ? orc::I64MAX - rng.range(0, 2) : orc::I64MIN + rng.range(0, 2);
         a.m = rng.range(1, 12);
         a.y = target - n.y;
+      }
+      if (rng.chance(0.25)) {
+        // trailing fields at their default values, so that the shorter constructor forms apply
+        switch (rng.range(0, 4)) {
+          case 0: a.m = 1; [[fallthrough]];
+          case 1: a.d = 1; [[fallthrough]];
+          case 2: a.H = 0; [[fallthrough]];
+          case 3: a.M = 0; [[fallthrough]];
+          default: a.S = 0; break;
+        }
       }
       c04_all(a, "random");
     }
@@ -688,6 +721,16 @@ int main(int argc, char** argv) {
             }
             m.c05_add<cctz::civil_minute>(base, -(146097L * 1440 + 1), "cycle");
             m.c05_add<cctz::civil_year>(base, -1, "cycle");
+            // landmark day counts (1, 4, 100 and 400 years of days, with and without the leap day), taken from the first of
+            // the month, from this day and as a plain step, through the hour, minute and second alignments: the day
+            // count that reaches the day normalisation is then exactly -K, -K+1, ... for each K
+            for (long K : {365L, 366L, 1460L, 1461L, 36524L, 36525L, 146097L}) {
+              for (long dd : {-(K + d), -(K + d - 1), -K, K}) {
+                m.c05_add<cctz::civil_hour>(base, dd * 24, "cycle-landmark");
+                m.c05_add<cctz::civil_minute>(base, dd * 1440, "cycle-landmark");
+                m.c05_add<cctz::civil_second>(base, dd * 86400, "cycle-landmark");
+              }
+            }
             Civ other{y + m.rng.range(-801, 801), (int)m.rng.range(1, 12), (int)m.rng.range(1, 28), 0, 0, 0};
             m.c05_diff<cctz::civil_day>(base, other, "cycle");
             m.c05_diff<cctz::civil_second>(base, other, "cycle");
